@@ -30,7 +30,7 @@ ASSUMPTIONS = [
 REPLAY_ATTEMPTS = 2
 
 SPECIAL = ['"', '""', ' ', '  ', ';', '=', 'Type=dir;', ' -> ', '-', '250 ', '250-', '\\', '%s', '%', '́', '\U0001F600',
-           '\x85', ' ', "'", '*', '?', '[', ':', '~', '#', '\t', '\x7f', '\x01', 'size=3;', 'x', 'é', '1', '{}', ' ']
+           '\x85', ' ', "'", '*', '?', '[', ':', '~', '#', '\t', '\x7f', '\x01', 'size=3;', 'x', 'é', '1', '{}', ' ', '-rf', '-la x', '-a', '-l', '--', '-1']
 NAME = st.lists(st.one_of(st.sampled_from(SPECIAL),
                           st.text(alphabet=st.characters(blacklist_characters='/\x00\r\n', blacklist_categories=("Cs",)),
                                   min_size=1, max_size=3)), min_size=1, max_size=5).map("".join).filter(
